@@ -378,30 +378,43 @@ def iter {α : Type} (g : α → α) : Nat → α → α
   | 0, a => a
   | n + 1, a => iter g n (g a)
 
-/-- `igris_atof64(nptr, &end)` for a non-null `nptr`: value and end offset -/
+/-- `while (d > 0) { val *= 10.0; d--; }  while (d < 0) { val *= 0.1; d++; }` -/
+def scale64 {F : Type} [FloatLike F] (val : F) (d : Int) : F :=
+  if d > 0 then iter (fun v => mul v (ofInt 10)) d.toNat val
+  else iter (fun v => mul v (lit 1 1)) (-d).toNat val
+
+/-- `if (e_sign > 0) while (e_val--) ret *= 10.0f; else while (e_val--) ret /= 10.0f;` -/
+def scale32 {F : Type} [FloatLike F] (ret : F) (eneg : Bool) (ev : Nat) : F :=
+  if eneg then iter (fun v => div v (ofInt 10)) ev ret
+  else iter (fun v => mul v (ofInt 10)) ev ret
+
+/-- `igris_atof64` after the optional sign: mantissa loops, exponent block,
+    scaling loops; returns `val` and the bytes from the final `nptr` on -/
+def atof64Body {F : Type} [FloatLike F] (p : List Nat) : Option (F × List Nat) :=
+  match mantLoop p (ofInt 0 : F) 0 with
+  | none => none
+  | some (val, _, p) =>
+    match p with
+    | [] => none
+    | c :: q =>
+      match (if c = 46 then mantLoop q val 0 else some (val, 0, p)) with
+      | none => none
+      | some (val, nfrac, p) =>
+        match parseExp p with
+        | none => none
+        | some (eneg, ev, p) =>
+          let d : Int := (if eneg then -(ev : Int) else ev) - nfrac
+          some (scale64 val d, p)
+
+/-- `igris_atof64(nptr, &end)` for a non-null `nptr`: value (`sign * val`) and end offset -/
 def atof64 {F : Type} [FloatLike F] (s : List Nat) : Option (F × Nat) :=
   match s with
   | [] => none
   | c0 :: s1 =>
     let neg := c0 = 45
     let p := if c0 = 43 ∨ c0 = 45 then s1 else s
-    match mantLoop p (ofInt 0 : F) 0 with
-    | none => none
-    | some (val, _, p) =>
-      match p with
-      | [] => none
-      | c :: q =>
-        match (if c = 46 then mantLoop q val 0 else some (val, 0, p)) with
-        | none => none
-        | some (val, nfrac, p) =>
-          match parseExp p with
-          | none => none
-          | some (eneg, ev, p) =>
-            let d : Int := (if eneg then -(ev : Int) else ev) - nfrac
-            let val :=
-              if d > 0 then iter (fun v => mul v (ofInt 10)) d.toNat val
-              else iter (fun v => mul v (lit 1 1)) (-d).toNat val
-            some (mul (ofInt (if neg then -1 else 1)) val, s.length - p.length)
+    (atof64Body p).map fun (val, rest) =>
+      (mul (ofInt (if neg then -1 else 1)) val, s.length - rest.length)
 
 /-- `igris_atou32/atou64(buf, 10, &end)`: accumulator modulo `M` -/
 def atou10 (M : Nat) : List Nat → Nat → Nat → Option (Nat × Nat × List Nat)
@@ -416,40 +429,43 @@ def localPow10 (n : Nat) : Option Nat := if 10 ^ n < 2 ^ 63 then some (10 ^ n) e
 /-- two's-complement reading of a 64-bit pattern (`int64_t d = igris_atou64(..)`) -/
 def toInt64 (u : Nat) : Int := if u < 2 ^ 63 then u else (u : Int) - 2 ^ 64
 
-/-- `igris_atof32(str, &end)`: `F` = float32_t, `D` = double -/
+/-- `igris_atof32` after the optional sign: `F` = float32_t, `D` = double;
+    returns `ret` and the bytes from the final `str` on -/
+def atof32Body {F D : Type} [FloatLike F] [FloatLike D] (cvt : D → F) (p : List Nat) : Option (F × List Nat) :=
+  match atou10 (2 ^ 32) p 0 0 with
+  | none => none
+  | some (u, _, p) =>
+    let ret0 : F := ofInt u
+    match p with
+    | [] => none
+    | c :: q =>
+      let fracPart : Option (F × List Nat) :=
+        if c = 46 then
+          match atou10 (2 ^ 64) q 0 0 with
+          | none => none
+          | some (d, n, p') =>
+            match localPow10 n with
+            | none => none
+            | some pw =>
+              some (add (ofInt u) (cvt (div (ofInt (toInt64 d) : D) (ofInt pw))), p')
+        else some (ret0, p)
+      match fracPart with
+      | none => none
+      | some (ret, p) =>
+        match parseExp p with
+        | none => none
+        | some (eneg, ev, p) =>
+          some (scale32 ret eneg ev, p)
+
+/-- `igris_atof32(str, &end)` -/
 def atof32 {F D : Type} [FloatLike F] [FloatLike D] (cvt : D → F) (s : List Nat) : Option (F × Nat) :=
   match s with
   | [] => none
   | c0 :: s1 =>
     let minus := c0 = 45
     let p := if c0 = 43 ∨ c0 = 45 then s1 else s
-    match atou10 (2 ^ 32) p 0 0 with
-    | none => none
-    | some (u, _, p) =>
-      let ret0 : F := ofInt u
-      match p with
-      | [] => none
-      | c :: q =>
-        let fracPart : Option (F × List Nat) :=
-          if c = 46 then
-            match atou10 (2 ^ 64) q 0 0 with
-            | none => none
-            | some (d, n, p') =>
-              match localPow10 n with
-              | none => none
-              | some pw =>
-                some (add (ofInt u) (cvt (div (ofInt (toInt64 d) : D) (ofInt pw))), p')
-          else some (ret0, p)
-        match fracPart with
-        | none => none
-        | some (ret, p) =>
-          match parseExp p with
-          | none => none
-          | some (eneg, ev, p) =>
-            let ret :=
-              if eneg then iter (fun v => div v (ofInt 10)) ev ret
-              else iter (fun v => mul v (ofInt 10)) ev ret
-            some (if minus then neg ret else ret, s.length - p.length)
+    (atof32Body (D := D) cvt p).map fun (ret, rest) =>
+      (if minus then neg ret else ret, s.length - rest.length)
 
 /-! ## debug_printdec_double_prec -/
 
